@@ -530,7 +530,42 @@ impl Ref {
 	}
 }
 
+/// documented limit: at most 64 square brackets may be open at any point outside quoted strings
+/// (value lists count like source lists); written from the documentation of MAX_NESTING_DEPTH
+fn ref_too_deep(text: &str) -> bool {
+	#[derive(PartialEq)]
+	enum M {
+		Plain,
+		Quoted,
+		QuotedEsc,
+	}
+	let (mut m, mut open, mut worst) = (M::Plain, 0i64, 0i64);
+	for c in text.chars() {
+		m = match (m, c) {
+			(M::Plain, '"') => M::Quoted,
+			(M::Plain, '[') => {
+				open += 1;
+				worst = worst.max(open);
+				M::Plain
+			}
+			(M::Plain, ']') => {
+				open = (open - 1).max(0);
+				M::Plain
+			}
+			(M::Plain, _) => M::Plain,
+			(M::Quoted, '\\') => M::QuotedEsc,
+			(M::Quoted, '"') => M::Plain,
+			(M::Quoted, _) => M::Quoted,
+			(M::QuotedEsc, _) => M::Quoted,
+		};
+	}
+	worst > 64
+}
+
 fn ref_parse(text: &str) -> String {
+	if ref_too_deep(text) {
+		return "err".into();
+	}
 	let mut r = Ref { s: text.chars().collect(), i: 0 };
 	match r.pipeline() {
 		Ok(p) if r.i == r.s.len() => format!("ok {}", dump_tpipe(&p)),
@@ -1001,7 +1036,7 @@ fn deep_probe(out: &mut Out, dir: &Path, n: usize, open: bool) {
 	}
 	let o = cmd.output().unwrap();
 	let stdout = String::from_utf8_lossy(&o.stdout).to_string();
-	let want = if open { "err" } else { "ok" };
+	let want = if open || n > 64 { "err" } else { "ok" };
 	let alive = o.status.success() && stdout.contains(&format!("deep real {n}: {want}"));
 	out.eval(&case, true);
 	out.count(if alive { "deep_probe_answered" } else { "deep_probe_process_died" });
@@ -1013,9 +1048,9 @@ fn deep_probe(out: &mut Out, dir: &Path, n: usize, open: bool) {
 			false,
 			&format!(
 				"C18 deep-nesting: parse_vpl on {n} nested source lists ({}) {} instead of returning {}",
-				if open { "never closed: text outside the syntax" } else { "well-formed" },
+				if open { "never closed: text outside the syntax" } else if n > 64 { "closed, beyond the nesting limit of 64" } else { "well-formed" },
 				if died { "kills the process (stack overflow in the recursive nom parser)" } else { "gives the wrong verdict" },
-				if open { "an error" } else { "the pipeline" }
+				if open || n > 64 { "an error" } else { "the pipeline" }
 			),
 			json!({"kind": if died { "stack-overflow" } else { "deep-wrong-verdict" }, "open": open}),
 			json!({"case": case, "status": format!("{:?}", o.status), "stderr": trunc(&String::from_utf8_lossy(&o.stderr), 200)}),
@@ -1163,8 +1198,28 @@ pub fn run(args: &Args) {
 		out.notes.push("exhaustive part: every text of length ≤ 5 over the alphabet {a = \" [ ] , | space backslash}".into());
 	}
 
-	// nesting far beyond the generated range (child process; the model has no native stack)
-	for (n, open) in [(64, false), (64, true), (1000, false), (1000, true), (100000, false), (100000, true)] {
+	// the nesting limit (64 open brackets, value lists included): boundary texts through parser, model and reference
+	for n in [1usize, 32, 62, 63, 64, 65, 66, 100, 300] {
+		let nest = |inner: &str| format!("{}{}{}", "a [".repeat(n), inner, "]".repeat(n));
+		for t in [
+			nest("b"),
+			nest("b k=[1,2]"),
+			nest("b k=\"[[[\""),
+			nest("b k=\"\\\"[[\" l=[]"),
+			nest("b k=[] l=[\"]\"]"),
+			format!("{}b", "a [".repeat(n)),
+			format!("a{}", "]".repeat(n)),
+			format!("a k=\"{}\"", "[".repeat(n)),
+			format!("a{}", " k=[1]".repeat(n)),
+			format!("from_overlayed [ {}", "from_overlayed [ ".repeat(n)),
+		] {
+			let e = ref_parse(&t);
+			out.count(if ref_too_deep(&t) { "nesting_beyond_limit" } else { "nesting_within_limit" });
+			emit_parse(&mut out, &t, &e, "nesting", true);
+		}
+	}
+	// nesting far beyond the limit (child process: before fix be686a0f the recursive parser exhausted the stack)
+	for (n, open) in [(64, false), (64, true), (65, false), (1000, false), (1000, true), (100000, false), (100000, true)] {
 		deep_probe(&mut out, &dir, n, open);
 	}
 
